@@ -262,6 +262,15 @@ func (f *fineSub) candidates(q hc.P2, smin float64) []float64 {
 }
 
 // reversed returns the flattening of the same piece traversed backwards.
+// devLimit: how far the samples of a located piece may be from the path at the same arc length.
+// 1e-4 of the subpath length (flattening differences, re-encoded arcs) plus 2% of the piece's own
+// length, never more than 1e-3 of the subpath length: a short piece must hug the path closely, so a
+// piece of another subpath that merely leaves a common vertex at a small angle is not mistaken for
+// a stretch of this one.
+func devLimit(f, pf *fineSub) float64 {
+	return math.Min(1e-3*f.sc, 1e-4*f.sc+0.02*pf.L)
+}
+
 func reversed(f *fineSub) fineSub {
 	n := len(f.pts)
 	r := fineSub{n: f.n, L: f.L, maxSeg: f.maxSeg, straight: f.straight, pts: make([]hc.P2, n), cum: make([]float64, n)}
@@ -433,8 +442,26 @@ func judgeDashKind(c *hc.Ctx, tag string, p *canvas.Path, off float64, d []float
 			}
 		}
 		tol := 0.01 * ksub.f.maxSeg
-		e, _ := splitAtError(ksub.path, ts, ksub.f)
-		if e > tol {
+		// cuts within the tolerance of the end are not requested: whether SplitAt makes them depends
+		// legitimately on its own total length
+		var tsIn []float64
+		for _, x := range ts {
+			if x < ksub.f.L-tol {
+				tsIn = append(tsIn, x)
+			}
+		}
+		e, cause := splitAtError(ksub.path, tsIn, ksub.f)
+		lenErr := math.Abs(ksub.path.Length()-ksub.f.L) / ksub.f.maxSeg
+		c.Count("accuracy-measure: Path.Length error/longest segment " + bucket(lenErr))
+		c.Count("accuracy-measure: worst error comes from " + map[byte]string{'T': "Path.Length", 'S': "a SplitAt cut", 'P': "SplitAt panic/malformed", 'N': "SplitAt piece count"}[cause])
+		if lenErr > 0.02 {
+			// since 0b071bc/8606e8f Path.Length is within 1.3% of the longest segment on every
+			// subpath met in 18 thorough-size sweeps (worst: hairpin cubic
+			// M-2.003 2.424C6 -11.016 -7.375 14.621 0.352 -1, 1.3% short); beyond 2% it is not the
+			// recorded defect any more (regression class of the two Length repairs)
+			kind = "length-accuracy"
+			desc = fmt.Sprintf("[Path.Length is off by %.2g%% of the longest segment] %s", 100*lenErr, desc)
+		} else if e > tol {
 			kinds := map[byte]bool{}
 			for _, sg := range ksub.f.segs {
 				kinds[sg.Kind] = true
@@ -519,22 +546,22 @@ func judgeDash1(c *hc.Ctx, tag string, p *canvas.Path, off float64, d []float64,
 				}
 			}
 			o, ok := locate(&subs[kk], &pf, sm)
-			if !(ok && o.dev < 1e-3*subs[kk].sc) && subs[kk].closed && sm > 0 {
+			if !(ok && o.dev < devLimit(&subs[kk], &pf)) && subs[kk].closed && sm > 0 {
 				// closed subpath: the piece up to (or through) the start point comes first, the
 				// following pieces start again from arc length 0
 				o, ok = locate(&subs[kk], &pf, 0)
 			}
-			if !(ok && o.dev < 1e-3*subs[kk].sc) && !subs[kk].straight && pf.L <= 0.02*subs[kk].maxSeg {
+			if !(ok && o.dev < devLimit(&subs[kk], &pf)) && !subs[kk].straight && pf.L <= 0.02*subs[kk].maxSeg {
 				// a piece shorter than twice the cut tolerance that runs backwards along the path (the
 				// approximated inverse arc length is not monotone within its accuracy): its extent
 				// is within the tolerance of where it should be, take the stretch it covers
 				rv := reversed(&pf)
-				if o2, ok2 := locate(&subs[kk], &rv, math.Max(0, sm-0.02*subs[kk].maxSeg)); ok2 && o2.dev < 1e-3*subs[kk].sc {
+				if o2, ok2 := locate(&subs[kk], &rv, math.Max(0, sm-0.02*subs[kk].maxSeg)); ok2 && o2.dev < devLimit(&subs[kk], &pf) {
 					o, ok = o2, true
 					c.Count(tag + ":tolerated backward piece shorter than 2% of the longest segment")
 				}
 			}
-			if ok && o.dev < 1e-3*subs[kk].sc {
+			if ok && o.dev < devLimit(&subs[kk], &pf) {
 				o.sub = kk
 				obs[kk] = append(obs[kk], o)
 				if dv := o.dev / subs[kk].sc * 1e6; dv > maxDevPPM {
@@ -562,7 +589,7 @@ func judgeDash1(c *hc.Ctx, tag string, p *canvas.Path, off float64, d []float64,
 						dev = dd
 					}
 				}
-				fmt.Fprintf(os.Stderr, "   candidate s0=%.6g dev=%.3g (limit %.3g)\n", s0, dev, 1e-3*f.sc)
+				fmt.Fprintf(os.Stderr, "   candidate s0=%.6g dev=%.3g (limit %.3g)\n", s0, dev, devLimit(f, &pf))
 			}
 		}
 		if !located {
@@ -571,12 +598,12 @@ func judgeDash1(c *hc.Ctx, tag string, p *canvas.Path, off float64, d []float64,
 			// approximation); if it is not, the piece has left the path: never attributed to accuracy.
 			onPath := false
 			for kk := range subs {
-				if o, ok := locate(&subs[kk], &pf, 0); ok && o.dev < 1e-3*subs[kk].sc {
+				if o, ok := locate(&subs[kk], &pf, 0); ok && o.dev < devLimit(&subs[kk], &pf) {
 					onPath = true
 					break
 				}
 				rv := reversed(&pf)
-				if o, ok := locate(&subs[kk], &rv, 0); ok && o.dev < 1e-3*subs[kk].sc {
+				if o, ok := locate(&subs[kk], &rv, 0); ok && o.dev < devLimit(&subs[kk], &pf) {
 					onPath = true
 					break
 				}
@@ -1113,6 +1140,12 @@ func runDashCaseKind(c *hc.Ctx, tag string, p *canvas.Path, off float64, d []flo
 			}
 			return nil, true, "", "", nil
 		}
+		for _, x := range q.Data() {
+			if math.IsNaN(x) || math.IsInf(x, 0) {
+				return q, true, "non-finite-coordinate-in-output", fmt.Sprintf("Dash(%v, %v) returned a path with a non-finite coordinate", off, d),
+					map[string]any{"path": p.String(), "offset": off, "d": d, "out": q.String()}
+			}
+		}
 		kind, desc, replay := judgeDashKind(c, tag, p, off, d, q)
 		return q, true, kind, desc, replay
 	}
@@ -1142,6 +1175,7 @@ func oracleRegressions(c *hc.Ctx) {
 		off        float64
 		d          []float64
 	}{
+		{"C05-splitat-nan-at-curve-end (known): two cuts at parameter 1 of a cubic", "M14.449 -8C12.584 -8 -2 -7.602 5 10.294C3.615 -9 15.305 6.599 -10.432 6C9.661 -4.858 -10.647 16.065 6 -2z", 0, []float64{0.125}},
 		{"e14817f negative offset beyond one period", "M0 0L10 0", -5, []float64{2, 2}},
 		{"e14817f negative offset after folded leading zero", "M-1 0.25L3.625 0.25", -5, []float64{0, 5.375, 1.375, 3.375}},
 		{"8a98a46 cut between SplitAt's length and Path.Length (arc+quad)", "M2 -4.5A13.99387774096553 6.996938870482765 30.392049502180505 1 1 -14.036 1Q0.325 10.114 -2.638 3.5", 7.644705817225682, []float64{5.764, 4.535}},
@@ -1170,6 +1204,17 @@ func oracleRegressions(c *hc.Ctx) {
 		tag := "curve"
 		if !strings.ContainsAny(tc.path, "QCA") {
 			tag = "polyline"
+		}
+		nonFinite := false
+		for _, x := range q.Data() {
+			if math.IsNaN(x) || math.IsInf(x, 0) {
+				nonFinite = true
+			}
+		}
+		if nonFinite {
+			replay["out"] = q.String()
+			fail(c, "non-finite-coordinate-in-output", fmt.Sprintf("Dash(%v, %v) returned a path with a non-finite coordinate", tc.off, tc.d), replay)
+			continue
 		}
 		judgeDash(c, tag, p, tc.off, tc.d, q)
 	}
